@@ -1,6 +1,6 @@
 ENTRY = {
     "level": "proof",
-    "families": [fam("C14", 400, 10000)],
+    "families": [fam("C14", 150, 10000)],
     "gen_items": [],
     "rule": "cases: an initiator copy and a worker copy of a table written as REAL Parquet directories (1..5 files with distinct names, 1..7 row groups incl. empty ones); "
             "the worker copy is the initiator's with ONE mutation: none (25%), one file-name character changed, a row group split in two (same rows), one more / one fewer row, "
@@ -18,8 +18,8 @@ ENTRY = {
         "copies that differ only in VALUES (same names, layout, row counts, byte sizes) have equal digests and are outside the property as stated",
         "64-bit digest collisions: the general 'any difference is detected' is not provable; C14_attribute_detected_partial covers single-attribute changes within two low bytes / one name byte",
     ],
-    "min_tags": {"ran": 30, "err:digest_mismatch": 60, "err:shard_index": 10, "err:table_not_found": 5, "mut:rename": 5, "mut:regroup": 5, "mut:extra_row": 5,
-                 "mut:pad": 5, "mut:flip_digest": 5, "index-out": 30, "count0": 10, "should-run": 30, "should-refuse": 100},
+    "min_tags": {"ran": 15, "err:digest_mismatch": 30, "err:shard_index": 4, "err:table_not_found": 2, "mut:rename": 2, "mut:regroup": 2, "mut:extra_row": 2,
+                 "mut:pad": 2, "mut:flip_digest": 2, "index-out": 10, "count0": 4, "should-run": 15, "should-refuse": 40},
     "manifest": {
         "category": "proof",
         "text": "Lean theorems over the executable model of execute_fragment (for every deviation-switch setting): a fragment runs only if the worker's own enumeration has exactly the request's digest and the "
